@@ -25,7 +25,7 @@ Definition has_upper (s : bytes) : bool := existsb (fun c => (65 <=? c)%N && (c 
 
 Definition prefix_ok (s : bytes) : bool :=
   match s with
-  | c :: 95%N :: _ :: _ => (c =? 101)%N || (c =? 119)%N || (c =? 110)%N      (* e_ w_ n_ followed by something *)
+  | c :: u :: _ :: _ => (u =? 95)%N && ((c =? 101)%N || (c =? 119)%N || (c =? 110)%N)      (* e_ w_ n_ followed by something *)
   | _ => false
   end.
 
